@@ -122,6 +122,18 @@ def run(tier, v):
     if multi < 100 or nontrivial < 100 or cnt.get("dispatcher_runs", 0) < 50:
         raise vlib.Inconclusive("too few non-trivial cases: %s" % cnt)
 
+    # 3. the assembled instance: scenarios with child routes (first match / continue, two receivers,
+    #    per-route timers and intervals); the groups, deliveries and API answers of the real instance
+    #    are validated against the routing definition of AMObs.tla (Chosen / GKeys), clauses C07_*
+    from checks import e2ecommon
+    e = e2ecommon._run_scenarios(PID, tier, v, 250, 3000)
+    e2e_drift = e2ecommon.judge(PID, v, e, {"C07"})
+    multi_cfgs = sum(1 for l in e["lines"] if '"ev":"cfg"' in l and l.count('"sel"') >= 3)
+    r2_attempts = sum(1 for l in e["lines"] if '"ev":"attempt"' in l and '"recv":"r2"' in l)
+    log("  e2e: %d scenarios with two or more child routes" % multi_cfgs)
+    if multi_cfgs < 30:
+        raise vlib.Inconclusive("end-to-end scenarios hardly exercised child routes (%d configurations)" % multi_cfgs)
+
     nls = len(json.loads(lib)["ls"])
     trees = sum(r["cases"] for r in results)
     sample = None
@@ -141,6 +153,7 @@ def run(tier, v):
         "evaluations": trees * nls * 2,
         "comparisons": sum(r["steps"] for r in results),
         "distinct_nontrivial": nontrivial,
+        "e2e_scenarios": e["runs"], "e2e_events_validated": len(e["lines"]), "e2e_scenarios_with_child_routes": multi_cfgs, "e2e_drift": e2e_drift,
         "rule": "cases are distinct trees printed by TLC; an evaluation is one (tree, rendering, label set) on which Route.Match, the API, "
                 "amtool and (sampled) the dispatcher are compared with the specification; non-trivial = some label set is routed to more "
                 "than one route or to a route at depth >= 2",
